@@ -522,6 +522,31 @@ def call_arguments_in_order(ctx, rid, core):
     ctx.inst(rid, "Call#arguments-in-order", verdict, detail, H.loc(call_arm["body"]))
 
 
+def call_site_independent(ctx, rid, core):
+    """no condition in FunctionDef::call reads the caller's environment other than the constant `inputs` (shared with C03: the self
+    name is bound whatever names the caller can see)"""
+    # nothing about how the body's environment is put together is decided by looking at the caller's environment: the one read of it
+    # is the session-constant `inputs`
+    hfc = core.hir_fn(FCALL)
+    envp = [H.pat_binds(p_)[0] for p_, t_ in zip(hfc["params"], hfc["inputs"]) if "environment::Environment" in t_ and H.pat_binds(p_)]
+    n_cs = 0
+    for x in H.walk(hfc["body"]):
+        c_ = x["cond"] if H.kind(x) == "If" else (x["scrut"] if H.kind(x) == "Match" else None)
+        if c_ is None:
+            continue
+        reads = [y for y in H.walk(c_) if H.kind(y) == "MethodCall" and any(H.path_local(z) in envp for z in H.walk(y["recv"]) if H.kind(z) == "Path")]
+        bare = [y for y in H.walk(c_) if H.kind(y) == "Path" and H.path_local(y) in envp]
+        if not bare:
+            continue
+        const_inputs = reads and all(y["name"] == "get" and y["args"] and H.lit(y["args"][0]) is not None and H.lit(y["args"][0])["v"] == "inputs" for y in reads)
+        if const_inputs:
+            continue
+        n_cs += 1
+        ctx.inst(rid, "body-env#decided-by-caller-environment[%s]" % ",".join(sorted({y["name"] for y in reads}) or ["-"]), False,
+                 "a condition in FunctionDef::call reads the caller's environment (%s): what the body sees then depends on the call site" % H.loc(c_), H.loc(x))
+    ctx.inst(rid, "body-env#call-site-independent", n_cs == 0, "conditions in FunctionDef::call that read the caller's environment (other than the constant `inputs`): %d" % n_cs, H.loc(hfc["body"]))
+
+
 def run(ctx):
     core = ctx.core
     ctx.not_decided += ["that a given closure returns the same value everywhere (the chain deliberately falls back to the caller's environment for names unbound at definition, which the statement excludes by its premise)"]
@@ -574,26 +599,7 @@ def run(ctx):
     # definition was taken from (an operand handed over instead makes a recursive function call its own argument)
     from rules import c13 as c13__
     c13__.this_pairing(ctx, "C04.R2", core)
-    # nothing about how the body's environment is put together is decided by looking at the caller's environment: the one read of it
-    # is the session-constant `inputs`
-    hfc = core.hir_fn(FCALL)
-    envp = [H.pat_binds(p_)[0] for p_, t_ in zip(hfc["params"], hfc["inputs"]) if "environment::Environment" in t_ and H.pat_binds(p_)]
-    n_cs = 0
-    for x in H.walk(hfc["body"]):
-        c_ = x["cond"] if H.kind(x) == "If" else (x["scrut"] if H.kind(x) == "Match" else None)
-        if c_ is None:
-            continue
-        reads = [y for y in H.walk(c_) if H.kind(y) == "MethodCall" and any(H.path_local(z) in envp for z in H.walk(y["recv"]) if H.kind(z) == "Path")]
-        bare = [y for y in H.walk(c_) if H.kind(y) == "Path" and H.path_local(y) in envp]
-        if not bare:
-            continue
-        const_inputs = reads and all(y["name"] == "get" and y["args"] and H.lit(y["args"][0]) is not None and H.lit(y["args"][0])["v"] == "inputs" for y in reads)
-        if const_inputs:
-            continue
-        n_cs += 1
-        ctx.inst("C04.R2", "body-env#decided-by-caller-environment[%s]" % ",".join(sorted({y["name"] for y in reads}) or ["-"]), False,
-                 "a condition in FunctionDef::call reads the caller's environment (%s): what the body sees then depends on the call site" % H.loc(c_), H.loc(x))
-    ctx.inst("C04.R2", "body-env#call-site-independent", n_cs == 0, "conditions in FunctionDef::call that read the caller's environment (other than the constant `inputs`): %d" % n_cs, H.loc(hfc["body"]))
+    call_site_independent(ctx, "C04.R2", core)
     capture_at_creation(ctx, "C04.R2", core)
     capture_by_name(ctx, "C04.R2", core)
 
